@@ -52,8 +52,9 @@ FnIndex(pi, name) == IF \E j \in 1..Len(Prog(pi).fns) : Prog(pi).fns[j].name = n
 NatIndex(pi, name) == IF \E j \in 1..Len(Prog(pi).natives) : Prog(pi).natives[j].name = name
                       THEN CHOOSE j \in 1..Len(Prog(pi).natives) : Prog(pi).natives[j].name = name ELSE 0
 
-Fr(op, ix, n, h) == [op |-> op, ix |-> ix, n |-> n, h |-> h, x |-> VNil, xs |-> <<>>]
-FrX(op, ix, n, h, x) == [op |-> op, ix |-> ix, n |-> n, h |-> h, x |-> x, xs |-> <<>>]
+Fr(op, ix, n, h) == [op |-> op, ix |-> ix, n |-> n, h |-> h, x |-> VNil, xs |-> <<>>, s |-> ""]
+FrX(op, ix, n, h, x) == [op |-> op, ix |-> ix, n |-> n, h |-> h, x |-> x, xs |-> <<>>, s |-> ""]
+FrS(op, ix, n, h, x, xs, name) == [op |-> op, ix |-> ix, n |-> n, h |-> h, x |-> x, xs |-> xs, s |-> name]
 Eval(ix) == Fr("eval", ix, 0, 0)
 
 NoIx == Ix(0, <<>>)
@@ -63,7 +64,12 @@ Running == [st |-> "run", kind |-> "", at |-> NoIx, chain |-> <<>>]
 Finish(m) == [m EXCEPT !.k = <<>>, !.out = [Running EXCEPT !.st = "ok"]]
 Unspecified(m) == [m EXCEPT !.k = <<>>, !.out = [Running EXCEPT !.st = "unspec"]]
 Chain(m) == [j \in 1..(Len(m.fr) - 1) |-> m.fr[Len(m.fr) + 1 - j].callix]
-Fail(m, kind, ix) == [m EXCEPT !.k = <<>>, !.out = [st |-> "err", kind |-> kind, at |-> ix, chain |-> Chain(m)]]
+NativeBacked == {"std.min", "std.max", "std.sorted", "std.to_array", "std.min_by_key", "std.max_by_key", "std.sorted_by_key"}
+\* an error raised while a native-backed library function is calling back into the script surfaces
+\* as a failure of that host task
+Fail(m, kind, ix) ==
+  LET wrapped == \E j \in 1..Len(m.k) : m.k[j].op = "std" /\ m.k[j].s \in NativeBacked IN
+  [m EXCEPT !.k = <<>>, !.out = [st |-> "err", kind |-> IF wrapped THEN "TaskFailure" ELSE kind, at |-> ix, chain |-> Chain(m)]]
 \* the top frame is finished and produced value x / no value
 Yield(m, x) == IF IsUnspec(x) THEN Unspecified(m) ELSE [m EXCEPT !.k = Pop(m.k), !.v = Append(m.v, x)]
 Done(m) == [m EXCEPT !.k = Pop(m.k)]
@@ -190,6 +196,72 @@ CallHost(m, name, args, callix) ==
 CallValueOrNative(m, fv, args, callix) ==
   IF fv.t = "nat" THEN CallHost(m, fv.s, args, callix) ELSE CallValue(m, fv, args, callix)
 
+\* ---- standard library, by contract (C09) -----------------------------------------------------
+\* filter / map / any call back with (key, value, index); the *_by_key functions with (key, value)
+StdNames == NativeBacked \cup {"std.filter", "std.map", "std.any"}
+IsStd(name) == name \in StdNames
+Row(k, x) == <<[k |-> VStr("key", 3), v |-> k], [k |-> VStr("value", 5), v |-> x]>>
+StdCall(m, name, a, ix) ==
+  LET t == a[Len(a)] IN
+  IF name \in {"std.filter", "std.map", "std.any"} THEN
+       IF Len(a) # 2 THEN Unspecified(m)
+       ELSE IF t.t # "ref" THEN Fail(m, "InvalidArgument", ix)
+       ELSE Replace(m, FrS("std", ix, 0, Len(m.v), a[1], m.heap[t.i], name))
+  ELSE IF t.t # "ref" THEN Yield(m, t)                 \* non-table input: returned unchanged
+  ELSE IF name = "std.to_array" THEN
+       LET tab == m.heap[t.i] IN
+       Yield(NewTable(m, [j \in 1..Len(tab) |-> [k |-> VInt(j - 1), v |-> tab[j].v]]), NewRef(m))
+  ELSE IF name \in {"std.min", "std.max", "std.sorted"} THEN
+       \* the key of an entry is its value: no callback, decide at once (frame with all keys present)
+       LET tab == m.heap[t.i] IN
+       Replace([m EXCEPT !.v = m.v \o [j \in 1..Len(tab) |-> tab[j].v]],
+               FrS("std", ix, Len(tab), Len(m.v), VNil, tab, name))
+  ELSE IF Len(a) # 2 THEN Unspecified(m)
+  ELSE Replace(m, FrS("std", ix, 0, Len(m.v), a[1], m.heap[t.i], name))
+
+\* stable ascending order of indices 1..n by key (insertion sort); "U" when keys are not comparable
+RECURSIVE InsertSorted(_, _, _, _)
+InsertSorted(m, keys, sorted, j) ==
+  \* insert index j after every element that is not greater than keys[j]
+  IF sorted = <<>> THEN <<j>>
+  ELSE IF CmpV(m, "Less", keys[j], keys[Head(sorted)]) = "T" THEN <<j>> \o sorted
+  ELSE <<Head(sorted)>> \o InsertSorted(m, keys, Tail(sorted), j)
+RECURSIVE SortIdx(_, _, _)
+SortIdx(m, keys, n) == IF n = 0 THEN <<>> ELSE InsertSorted(m, keys, SortIdx(m, keys, n - 1), n)
+Comparable(m, keys) == \A i, j \in 1..Len(keys) : CmpV(m, "Less", keys[i], keys[j]) # "U"
+
+StdStep(m, f) ==
+  LET ents == f.xs  n == Len(f.xs)  res == LastN(m.v, f.n)  m0 == [m EXCEPT !.v = Take(m.v, f.h)]
+      cb == [op |-> "callcb", ix |-> f.ix, n |-> 0, h |-> Len(m.v), x |-> f.x, xs |-> <<>>, s |-> ""] IN
+  IF Len(m.v) # f.h + f.n THEN Unspecified(m)
+  ELSE IF f.s \in {"std.filter", "std.map", "std.any"} THEN
+       IF f.s = "std.any" /\ f.n > 0 /\ TruthV(m, res[f.n]) = "U" THEN Unspecified(m)
+       ELSE IF f.s = "std.any" /\ f.n > 0 /\ TruthV(m, res[f.n]) = "T" THEN Yield(m0, ents[f.n].k)
+       ELSE IF f.n < n THEN
+            [m EXCEPT !.k = Append(Append(Pop(m.k), [f EXCEPT !.n = f.n + 1]),
+                                   [cb EXCEPT !.xs = <<VInt(f.n), ents[f.n + 1].v, ents[f.n + 1].k>>])]
+       ELSE IF f.s = "std.any" THEN Yield(m0, VNil)
+       ELSE IF f.s = "std.map" THEN
+            Yield(NewTable(m0, [j \in 1..n |-> [k |-> ents[j].k, v |-> res[j]]]), NewRef(m0))
+       ELSE \* filter: entries whose callback result is truthy, same keys, same order
+            IF \E j \in 1..n : TruthV(m, res[j]) = "U" THEN Unspecified(m)
+            ELSE LET keep == SelectSeq([j \in 1..n |-> j], LAMBDA j : TruthV(m, res[j]) = "T") IN
+                 Yield(NewTable(m0, [q \in 1..Len(keep) |-> ents[keep[q]]]), NewRef(m0))
+  ELSE \* min / max / sorted (+ _by_key): one key per entry, key function called as (key, value)
+       IF f.n < n THEN
+            [m EXCEPT !.k = Append(Append(Pop(m.k), [f EXCEPT !.n = f.n + 1]),
+                                   [cb EXCEPT !.xs = <<ents[f.n + 1].v, ents[f.n + 1].k>>])]
+       ELSE IF n = 0 THEN (IF f.s \in {"std.sorted", "std.sorted_by_key"} THEN Yield(NewTable(m0, <<>>), NewRef(m0)) ELSE Yield(m0, VNil))
+       ELSE IF ~Comparable(m, res) THEN Unspecified(m)
+       ELSE IF f.s \in {"std.sorted", "std.sorted_by_key"} THEN
+            LET ord == SortIdx(m, res, n) IN
+            Yield(NewTable(m0, [q \in 1..n |-> ents[ord[q]]]), NewRef(m0))
+       ELSE LET less(i, j) == IF f.s \in {"std.min", "std.min_by_key"} THEN CmpV(m, "Less", res[i], res[j]) = "T"
+                                                                         ELSE CmpV(m, "Less", res[j], res[i]) = "T"
+                \* the first entry that no other entry beats
+                best == CHOOSE i \in 1..n : (\A j \in 1..n : ~less(j, i)) /\ (\A j \in 1..(i - 1) : \E q \in 1..n : less(q, j))
+            IN Yield(NewTable(m0, Row(ents[best].k, ents[best].v)), NewRef(m0))
+
 \* ---- evaluation order of the value children of a card (1-based child numbers) ------------
 EvalOrder(card) == IF card.k = "DynamicCall" THEN [j \in 1..Len(card.c) |-> IF j < Len(card.c) THEN j + 1 ELSE 1]
                    ELSE [j \in 1..Len(card.c) |-> j]
@@ -274,7 +346,8 @@ Apply(m, f) ==
               IF IsUnspec(b) THEN Unspecified(m)
               ELSE IF tgt.t # "ref" THEN Fail(m, "InvalidArgument", ix)
               ELSE Done([m0 EXCEPT !.heap[tgt.i] = TSet(@, VStr(lastp.s, lastp.i), a[1])])
-    [] kd = "Call" -> (IF FnIndex(m.pi, card.s) = 0 THEN Unspecified(m)
+    [] kd = "Call" -> (IF IsStd(card.s) THEN StdCall(m0, card.s, a, ix)
+                       ELSE IF FnIndex(m.pi, card.s) = 0 THEN Unspecified(m)
                        ELSE Invoke(m0, Ix(FnIndex(m.pi, card.s), <<>>), <<>>, a, ix))
     [] kd = "DynamicCall" -> CallValueOrNative(m0, a[na], Take(a, na - 1), ix)
     [] kd = "CallNative" -> CallHost(m0, card.s, a, ix)
@@ -349,6 +422,8 @@ StepM(m) ==
                   m5 == IF card.nm[2].s # "" THEN Bind(m4, card.nm[2].s, e.k) ELSE m4
                   m6 == IF card.nm[1].s # "" THEN Bind(m5, card.nm[1].s, VInt(f.n)) ELSE m5 IN
               [m6 EXCEPT !.k = Append(Append(Append(Pop(m.k), [f EXCEPT !.n = f.n + 1]), Fr("endscope", ix, 0, f.h)), Eval(Child(ix, 1)))]
+    [] f.op = "std" -> StdStep(m1, f)
+    [] f.op = "callcb" -> CallValueOrNative(m1, f.x, f.xs, ix)
     [] f.op = "endscope" -> Done(PopScope([m1 EXCEPT !.v = Take(m.v, f.h)]))
 
 \* ---- initial machine and observation ------------------------------------------------------
